@@ -418,14 +418,53 @@ def stateless_parsing(ctx, report, RULE='C19.R5', modules=None, allow_memo=True,
 
 
 def memo_guarded(f, model):
-    """ids of the nodes inside ``if <key> not in <class state>:`` / ``if <class state> is None:`` blocks: the one-time
-    initialisation of a memo entry"""
+    """ids of the nodes that belong to the one-time initialisation of a memo entry: inside ``if <key> not in <class
+    state>:`` / ``if <class state> is None:`` blocks, or the store ``T[key] = ...`` that follows a ``try: return T[key]`` /
+    ``except KeyError`` probe of the same table.  In both forms the key has to name every parameter the function uses
+    (``cls`` / ``self`` included when something is dispatched on them): an entry computed for one class or argument and
+    looked up for another is a wrong answer, not a cache hit."""
     out = set()
+    params = [a.arg for a in f.node.args.args]
+    root = params[0] if params and params[0] in ('cls', 'self') else None
+
+    def used_params(skip):
+        used = set()
+        for n in ast.walk(f.node):
+            if id(n) in skip:
+                continue
+            if isinstance(n, ast.Name) and isinstance(n.ctx, ast.Load) and n.id in params:
+                used.add(n.id)
+        return used
+
+    def key_covers(table, key):
+        # names the table expression itself needs (cls._TABLE) do not count as uses of cls
+        skip = set()
+        for n in ast.walk(f.node):
+            if isinstance(n, ast.Attribute) and ast.unparse(n) == ast.unparse(table):
+                for x in ast.walk(n):
+                    skip.add(id(x))
+        need = used_params(skip)
+        have = {x.id for x in ast.walk(key) if isinstance(x, ast.Name)}
+        if any(isinstance(x, ast.Call) and isinstance(x.func, ast.Name) and x.func.id == 'type' for x in ast.walk(key)):
+            have.add(root)
+        return need <= have
+    # form (b): try: return T[key] / except KeyError ... T[key] = value
+    for t in ast.walk(f.node):
+        if isinstance(t, ast.Try) and any(h.type is not None and 'KeyError' in ast.unparse(h.type) for h in t.handlers):
+            probes = [x for b in t.body for x in ast.walk(b) if isinstance(x, ast.Subscript) and isinstance(x.ctx, ast.Load) and class_rooted(x.value, f, model, ())]
+            for pr in probes:
+                for n in ast.walk(f.node):
+                    if isinstance(n, ast.Assign) and len(n.targets) == 1 and isinstance(n.targets[0], ast.Subscript) and \
+                            ast.unparse(n.targets[0]) == ast.unparse(pr) and key_covers(pr.value, pr.slice):
+                        for x in ast.walk(n):
+                            out.add(id(x))
     for n in ast.walk(f.node):
         if isinstance(n, ast.If) and isinstance(n.test, ast.Compare) and len(n.test.ops) == 1:
             op, right = n.test.ops[0], n.test.comparators[0]
             guard = (isinstance(op, ast.NotIn) and class_rooted(right, f, model, ())) or \
                     (isinstance(op, ast.Is) and isinstance(right, ast.Constant) and right.value is None and class_rooted(n.test.left, f, model, ()))
+            if guard and isinstance(op, ast.NotIn) and not key_covers(right, n.test.left):
+                guard = False       # the key leaves out something the entry depends on
             if guard:
                 for st in n.body:
                     for x in ast.walk(st):
